@@ -227,6 +227,9 @@ func (key *PublicKey) ECDSA() (*ecdsa.PublicKey, error) {
 		if key.KeyBlock.KeyFormatType == KeyFormatTypeTransparentECPublicKey {
 			tkey = mat.TransparentECPublicKey
 		}
+		if tkey == nil {
+			return nil, errors.New("Empty key material")
+		}
 		var curve elliptic.Curve
 		switch tkey.RecommendedCurve {
 		case RecommendedCurveP_224:
@@ -421,6 +424,9 @@ func (key *PrivateKey) ECDSA() (*ecdsa.PrivateKey, error) {
 		if key.KeyBlock.KeyFormatType == KeyFormatTypeTransparentECPrivateKey {
 			tkey = mat.TransparentECPrivateKey
 		}
+		if tkey == nil {
+			return nil, errors.New("Empty key material")
+		}
 
 		var curve elliptic.Curve
 		switch tkey.RecommendedCurve {
@@ -519,7 +525,7 @@ func (kb *KeyBlock) TagDecodeTTLV(d *ttlv.Decoder, tag int) error {
 }
 
 func (kb *KeyBlock) GetMaterial() (KeyMaterial, error) {
-	if kb.KeyValue.Plain == nil {
+	if kb.KeyValue == nil || kb.KeyValue.Plain == nil {
 		return KeyMaterial{}, errors.New("Empty key value")
 	}
 	return kb.KeyValue.Plain.KeyMaterial, nil
@@ -537,7 +543,7 @@ func (kb *KeyBlock) GetBytes() ([]byte, error) {
 }
 
 func (kb *KeyBlock) GetAttributes() []Attribute {
-	if kb.KeyValue.Plain == nil {
+	if kb.KeyValue == nil || kb.KeyValue.Plain == nil {
 		return nil
 	}
 	return kb.KeyValue.Plain.Attribute
